@@ -215,12 +215,35 @@ def run(ctx):
                         if x[0] == "const" and dict(x[1]).get("int") not in (0, None):
                             good = False
                             why.append("adds the constant %s to a byte offset" % dict(x[1]).get("int"))
-            uses_len = any(c2.matches(r"char::methods::<impl char>::len_utf8$|::len_utf8$|is_char_boundary$|ceil_char_boundary$|floor_char_boundary$|char_indices$")
-                           for b2 in [s] + facts.nested(s) for c2 in b2.calls)
-            if bins and not uses_len:
+            from .c17 import describe
+            form = describe(s, end)
+            pe = op_place(end)
+            if pe is not None and not pe["p"]:
+                d0 = single_def(s, pe["l"])
+                # look through one named variable / move chain to the defining expression
+                hops = 0
+                while d0 is not None and d0[1] == "assign" and d0[2]["rv"]["k"] == "use" and op_place(d0[2]["rv"]["op"]) is not None and hops < 4:
+                    q = op_place(d0[2]["rv"]["op"])
+                    if q["p"]:
+                        dd = single_def(s, q["l"])
+                        if dd and dd[1] == "assign" and dd[2]["rv"]["k"] == "bin":
+                            rvb = dd[2]["rv"]
+                            form = "%s(%s,%s)" % (rvb["op"].replace("WithOverflow", ""), describe(s, rvb["a"]), describe(s, rvb["b"]))
+                        break
+                    d0 = single_def(s, q["l"])
+                    hops += 1
+                if d0 is not None and d0[1] == "assign" and d0[2]["rv"]["k"] == "bin":
+                    rvb = d0[2]["rv"]
+                    form = "%s(%s,%s)" % (rvb["op"].replace("WithOverflow", ""), describe(s, rvb["a"]), describe(s, rvb["b"]))
+                elif d0 is not None and d0[1] == "call":
+                    form = describe(s, {"copy": {"l": d0[2].dst["l"], "p": []}}) if not s.local_name(d0[2].dst["l"]) else "%s(%s)" % (d0[2].name.split("::")[-1], ",".join(describe(s, a) for a in d0[2].args[:2]))
+            uses_len = any(c2.matches(r"char::methods::<impl char>::len_utf8$|::len_utf8$") for b2 in [s] + facts.nested(s) for c2 in b2.calls)
+            boundary_api = re.search(r"(ceil_char_boundary|floor_char_boundary)\(", form) is not None
+            affine = re.match(r"^(Add\(subject_pos,.*\)(\.0)?)$", form) is not None and uses_len and "nth(" not in form and "char_indices" not in form
+            if not (affine or boundary_api or form == "subject_pos"):
                 good = False
-                why.append("offset arithmetic without len_utf8 / char-boundary logic")
-            ctx.check(good, "C14-R5", "char-boundary", "the slice end is a char boundary for every input (%s)" % ("; ".join(why) or "subject_pos + len_utf8(first char)"), c.where())
+                why.append("end = %s is not `subject_pos + len_utf8(first char)`" % form)
+            ctx.check(good, "C14-R5", "char-boundary", "the slice end is the byte offset just after the statement's first character (%s)" % ("; ".join(why) or form), c.where())
 
     # ---- R4 call sites ------------------------------------------------------------------
     f = facts.one(FIND)
